@@ -7,7 +7,7 @@ A configuration is a JSON-able dict:
   kind       map | map_stateful | iter_plain | iter_readme | iter_ds_state | iter_it_state | iter_selfiter
   sizes      per-worker shard sizes for iterable kinds (len == max(W,1)); n = dataset length for map kinds
   W, bs (None = no auto-collation), drop_last, pf, persistent, interval (snapshot_every_n_steps),
-  sampler    seq | shuffle | shuffle_gen | custom_stateful | custom_plain | batch_sampler
+  sampler    seq | shuffle | shuffle_gen | custom_stateful | custom_plain | batch_sampler | rand_repl | rand_multi (opt-in)
   in_order
 """
 from __future__ import annotations
@@ -460,6 +460,14 @@ def build(cfg, cls=None, ctx=None):
         g = torch.Generator()
         g.manual_seed(cfg.get("gen_seed", 11))
         return cls(ds, shuffle=True, generator=g, **common, **kw)
+    if samp in ("rand_repl", "rand_multi"):
+        # torchdata's stateful RandomSampler as a user-supplied sampler: with replacement (index buffer refilled every 32
+        # draws) or num_samples > len(dataset) (several permutations per epoch)
+        from torchdata.stateful_dataloader.sampler import RandomSampler as SRS
+        g = torch.Generator()
+        g.manual_seed(cfg.get("gen_seed", 11))
+        RS = SRS if cls is StatefulDataLoader else tud.RandomSampler
+        return cls(ds, sampler=RS(ds, replacement=(samp == "rand_repl"), num_samples=cfg["ns"], generator=g), **common, **kw)
     if samp == "custom_plain":
         return cls(ds, sampler=PlainSampler(_order(cfg)), **common, **kw)
     if samp == "custom_stateful":
@@ -479,7 +487,7 @@ def canon_batch(b):
 # configuration generator
 
 
-def gen_cfg(rng: random.Random, kinds=None, max_w=3, allow_shuffle=True, small=True) -> Dict[str, Any]:
+def gen_cfg(rng: random.Random, kinds=None, max_w=3, allow_shuffle=True, small=True, rand_samplers=0.0) -> Dict[str, Any]:
     kinds = kinds or (MAP_KINDS + ITER_KINDS)
     kind = rng.choice(kinds)
     W = rng.choice([0, 1, 2, 2, 3, 3][: 2 + 2 * max_w] if max_w < 3 else [0, 1, 2, 2, 3, 3, 4])
@@ -509,6 +517,14 @@ def gen_cfg(rng: random.Random, kinds=None, max_w=3, allow_shuffle=True, small=T
             cfg["sampler_len"] = rng.choice([0, 0, 1, max(cfg["n"] - 1, 0), rng.randrange(0, cfg["n"] + 1)])
         if cfg["n"] == 0 and cfg["sampler"] in ("shuffle", "shuffle_gen"):
             cfg["n"] = 1  # torch rejects RandomSampler over an empty dataset at construction
+        if rand_samplers and rng.random() < rand_samplers:
+            cfg.pop("sampler_len", None)
+            cfg["sampler"] = rng.choice(["rand_repl", "rand_multi"])
+            cfg["n"] = rng.choice([3, 4, 5, 7])
+            cfg["ns"] = rng.choice([33, 36, 41]) if cfg["sampler"] == "rand_repl" else 2 * cfg["n"] + rng.choice([0, 1, 3])
+            cfg["bs"] = rng.choice([None, 2, 3, 4]) if cfg["sampler"] == "rand_multi" else rng.choice([3, 4, 5])
+            cfg["drop_last"] = cfg["drop_last"] if cfg["bs"] is not None else False
+            cfg["gen_seed"] = rng.randrange(1000)
     return cfg
 
 
